@@ -68,8 +68,10 @@ VARIABLES n,        \* commits created so far: 1..n
           cg,       \* [on, commits, closed]
           midx,     \* [on, packs]
           bmp,      \* set of [at, for, sel]
-          idxv      \* 1 | 2
-vars == <<n, par, loose, packs, tref, lref, pref, cg, midx, bmp, idxv>>
+          idxv,     \* 1 | 2
+          act       \* the step that led here (history variable, hidden by VIEW view)
+vars == <<n, par, loose, packs, tref, lref, pref, cg, midx, bmp, idxv, act>>
+view == <<n, par, loose, packs, tref, lref, pref, cg, midx, bmp, idxv>>
 prim == <<n, par, loose, packs, tref, lref, pref>>
 
 Commits   == 1..n
@@ -214,13 +216,15 @@ TypeOK ==
 -----------------------------------------------------------------------------
 Init == /\ n = 0 /\ par = [i \in 1..N |-> {}] /\ loose = {} /\ packs = {}
         /\ tref = [r \in Refs |-> 0] /\ lref = [r \in Refs |-> 0] /\ pref = [r \in Refs |-> 0]
-        /\ cg = NoCg /\ midx = NoMidx /\ bmp = {} /\ idxv = 2
+        /\ cg = NoCg /\ midx = NoMidx /\ bmp = {} /\ idxv = 2 /\ act = <<"Init">>
 
 acc == <<cg, midx, bmp, idxv>>
+\* behaviours are explored up to MaxDepth steps (0 = no bound: trace validation)
+Lvl == MaxDepth = 0 \/ TLCGet("level") <= MaxDepth
 
 \* ---- history growth.  how = "loose" (add_object) | "pack" (add_objects: arrives as a pack of its own)
 Commit(P, r, how) ==
-    /\ n < N /\ Cardinality(P) <= 2 /\ P \subseteq PresentS
+    /\ Lvl /\ act' = <<"Commit", P, r, how>> /\ n < N /\ Cardinality(P) <= 2 /\ P \subseteq PresentS
     /\ how = "pack" => Cardinality(packs) < MaxPacks
     /\ n' = n + 1 /\ par' = [par EXCEPT ![n + 1] = P]
     /\ IF how = "loose" THEN loose' = loose \cup {n + 1} /\ UNCHANGED packs
@@ -228,40 +232,40 @@ Commit(P, r, how) ==
     /\ tref' = [tref EXCEPT ![r] = n + 1] /\ lref' = [lref EXCEPT ![r] = n + 1]
     /\ UNCHANGED <<pref, acc>>
 SetRef(r, c) ==
-    /\ c \in PresentS /\ tref[r] # c
+    /\ Lvl /\ act' = <<"SetRef", r, c>> /\ c \in PresentS /\ tref[r] # c
     /\ tref' = [tref EXCEPT ![r] = c] /\ lref' = [lref EXCEPT ![r] = c]
     /\ UNCHANGED <<n, par, loose, packs, pref, acc>>
 DeleteRef(r) ==
-    /\ tref[r] # 0
+    /\ Lvl /\ act' = <<"DeleteRef", r>> /\ tref[r] # 0
     /\ tref' = [tref EXCEPT ![r] = 0] /\ lref' = [lref EXCEPT ![r] = 0]
     /\ pref' = IF DeleteDropsPacked THEN [pref EXCEPT ![r] = 0] ELSE pref
     /\ UNCHANGED <<n, par, loose, packs, acc>>
 
 \* ---- maintenance
 PackRefs(w) ==
-    /\ \E r \in Refs : lref[r] # 0
+    /\ Lvl /\ act' = <<"PackRefs", w>> /\ \E r \in Refs : lref[r] # 0
     /\ pref' = [r \in Refs |-> RefVal(r)] /\ lref' = [r \in Refs |-> 0]
     /\ UNCHANGED <<n, par, loose, packs, tref, acc>>
 PackLoose ==
-    /\ loose # {} /\ Cardinality(packs \cup {loose}) <= MaxPacks
+    /\ Lvl /\ act' = <<"PackLoose">> /\ loose # {} /\ Cardinality(packs \cup {loose}) <= MaxPacks
     /\ packs' = packs \cup {loose} /\ loose' = {}
     /\ UNCHANGED <<n, par, tref, lref, pref, acc>>
 \* dulwich repack(): everything into one pack; accelerator files are left alone (bitmaps of removed packs
 \* stay on disk as orphans and re-attach if a pack of that name comes back)
 RepackD ==
-    /\ PresentS # {} /\ (packs # {PresentS} \/ loose # {})
+    /\ Lvl /\ act' = <<"RepackD">> /\ PresentS # {} /\ (packs # {PresentS} \/ loose # {})
     /\ packs' = {PresentS} /\ loose' = {}
     /\ UNCHANGED <<n, par, tref, lref, pref, acc>>
 \* dulwich garbage_collect(grace_period=None): unreachable objects go, the rest into one pack
 Gc ==
-    /\ PresentS # {} /\ (loose # {} \/ packs # {Reach})
+    /\ Lvl /\ act' = <<"Gc">> /\ PresentS # {} /\ (loose # {} \/ packs # {Reach})
     /\ packs' = (IF Reach = {} THEN {} ELSE {Reach}) /\ loose' = {}
     /\ UNCHANGED <<n, par, tref, lref, pref, acc>>
 \* git repack -a -d [-b]: reachable objects into one pack, old packs (with their unreachable objects) deleted,
 \* loose copies of packed objects pruned; the midx is deleted when it names a deleted pack; bitmaps of deleted
 \* packs are deleted; -b writes a bitmap for the new pack
 RepackG(b) ==
-    /\ Reach # {}
+    /\ Lvl /\ act' = <<"RepackG", b>> /\ Reach # {}
     /\ LET gone == packs \ {Reach}
            np   == {Reach}
            nl   == loose \ Reach IN
@@ -276,65 +280,64 @@ RepackG(b) ==
 \* mode: "all" dulwich write_commit_graph() (every commit in the store), "reach" from the ref tips
 \* (git commit-graph write --reachable / dulwich refs=tips), "tips" dulwich reachable=False
 BuildCg(w, mode) ==
-    /\ Tips # {} /\ (w = "git" => mode = "reach")
+    /\ Lvl /\ act' = <<"BuildCg", w, mode>> /\ Tips # {} /\ (w = "git" => mode = "reach")
     /\ LET C == CASE mode = "all" -> PresentS [] mode = "reach" -> Reach [] mode = "tips" -> Tips IN
        cg' = [on |-> TRUE, commits |-> IF CgWriterCloses THEN Anc(C) ELSE C,
               closed |-> CgWriterCloses \/ ClosedIn(C, C)]
     /\ cg' # cg
     /\ UNCHANGED <<prim, midx, bmp, idxv>>
 BuildMidx(w) ==
-    /\ packs # {} /\ midx # [on |-> TRUE, packs |-> packs]
+    /\ Lvl /\ act' = <<"BuildMidx", w>> /\ packs # {} /\ midx # [on |-> TRUE, packs |-> packs]
     /\ midx' = [on |-> TRUE, packs |-> packs]
     /\ UNCHANGED <<prim, cg, bmp, idxv>>
 \* dulwich generate_pack_bitmaps(refs): every pack without an accepted bitmap gets one for the tips it holds
 BuildBmp ==
-    /\ Tips # {} /\ packs # {}
+    /\ Lvl /\ act' = <<"BuildBmp">> /\ Tips # {} /\ packs # {}
     /\ LET ok(p) == \E b \in bmp : b.at = p /\ (BitmapChecksum => b.for = p)
            new == {[at |-> p, for |-> p, sel |-> Tips \cap p] : p \in {q \in packs : ~ok(q)}} IN
        /\ new # {}
        /\ bmp' = {b \in bmp : ok(b.at) \/ b.at \notin packs} \cup new
     /\ UNCHANGED <<prim, cg, midx, idxv>>
 Remove(k) ==
+    /\ Lvl /\ act' = <<"Remove", k>>
     /\ \/ k = "cg" /\ cg.on /\ cg' = NoCg /\ UNCHANGED <<midx, bmp>>
        \/ k = "midx" /\ midx.on /\ midx' = NoMidx /\ UNCHANGED <<cg, bmp>>
        \/ k = "bmp" /\ bmp # {} /\ bmp' = {} /\ UNCHANGED <<cg, midx>>
     /\ UNCHANGED <<prim, idxv>>
 \* files built elsewhere: the other repository is a fully packed clone holding every commit ever created
 CopyMidx ==
-    /\ WithCopies /\ n > 0 /\ midx # [on |-> TRUE, packs |-> {Commits}]
+    /\ Lvl /\ act' = <<"CopyMidx">> /\ WithCopies /\ n > 0 /\ midx # [on |-> TRUE, packs |-> {Commits}]
     /\ midx' = [on |-> TRUE, packs |-> {Commits}]
     /\ UNCHANGED <<prim, cg, bmp, idxv>>
 CopyCg ==
-    /\ WithCopies /\ n > 0 /\ cg # [on |-> TRUE, commits |-> Commits, closed |-> TRUE]
+    /\ Lvl /\ act' = <<"CopyCg">> /\ WithCopies /\ n > 0 /\ cg # [on |-> TRUE, commits |-> Commits, closed |-> TRUE]
     /\ cg' = [on |-> TRUE, commits |-> Commits, closed |-> TRUE]
     /\ UNCHANGED <<prim, midx, bmp, idxv>>
 \* the bitmap of pack p renamed to sit next to pack q
 CopyBmp(p, q) ==
-    /\ WithCopies /\ p # q /\ q \in packs
+    /\ Lvl /\ act' = <<"CopyBmp", p, q>> /\ WithCopies /\ p # q /\ q \in packs
     /\ \E b \in bmp : /\ b.at = p /\ b.for = p
                       /\ bmp' = {x \in bmp : x.at # q} \cup {[at |-> q, for |-> p, sel |-> b.sel]}
     /\ UNCHANGED <<prim, cg, midx, idxv>>
 Reindex(w, v) ==
-    /\ WithIdx /\ packs # {} /\ idxv # v /\ idxv' = v
+    /\ Lvl /\ act' = <<"Reindex", w, v>> /\ WithIdx /\ packs # {} /\ idxv # v /\ idxv' = v
     /\ UNCHANGED <<prim, cg, midx, bmp>>
 
 Writers == {"dulwich", "git"}
 Next ==
-    /\ TLCGet("level") <= MaxDepth
-    /\ \/ \E P \in SUBSET Commits, r \in Refs, how \in {"loose", "pack"} : Commit(P, r, how)
-       \/ \E r \in Refs, c \in Commits : SetRef(r, c)
-       \/ \E r \in Refs : DeleteRef(r)
-       \/ \E w \in Writers : PackRefs(w)
-       \/ PackLoose \/ RepackD \/ Gc
-       \/ \E b \in BOOLEAN : RepackG(b)
-       \/ \E w \in Writers, m \in {"all", "reach", "tips"} : BuildCg(w, m)
-       \/ \E w \in Writers : BuildMidx(w)
-       \/ BuildBmp
-       \/ \E k \in Kinds : Remove(k)
-       \/ CopyMidx \/ CopyCg
-       \/ \E p \in {b.at : b \in bmp}, q \in packs : CopyBmp(p, q)
-       \/ \E w \in Writers, v \in {1, 2} : Reindex(w, v)
-    /\ Healthy'
+    \/ \E P \in SUBSET (1..N), r \in Refs, how \in {"loose", "pack"} : Commit(P, r, how)
+    \/ \E r \in Refs, c \in 1..N : SetRef(r, c)
+    \/ \E r \in Refs : DeleteRef(r)
+    \/ \E w \in Writers : PackRefs(w)
+    \/ PackLoose \/ RepackD \/ Gc
+    \/ \E b \in BOOLEAN : RepackG(b)
+    \/ \E w \in Writers, m \in {"all", "reach", "tips"} : BuildCg(w, m)
+    \/ \E w \in Writers : BuildMidx(w)
+    \/ BuildBmp
+    \/ \E k \in Kinds : Remove(k)
+    \/ CopyMidx \/ CopyCg
+    \/ \E p, q \in (SUBSET (1..N)) \ {{}} : CopyBmp(p, q)
+    \/ \E w \in Writers, v \in {1, 2} : Reindex(w, v)
 
 Spec == Init /\ [][Next]_vars
 =============================================================================
